@@ -109,6 +109,27 @@ def gen_case(rng, index, tier):
         L.add({'p': L.home + '/trash-link', 't': 'l', 'to': '@/' + t['rel']})
         opts = ['--trash-dir', '@/' + L.home + '/trash-link']
         via_link = t['rel']
+    elif cmd.startswith('empty') and rng.random() < 0.3:
+        # the trash dir spelled through '<symlink to dir>/..': the kernel goes
+        # to the parent of the link's TARGET; a lexical reading lands in a
+        # bystander trash dir holding entries with the same names
+        t = rng.choice(trashes)
+        X = os.path.dirname(t['rel'])
+        bn = os.path.basename(t['rel'])
+        P = L.home + '/bystander'
+        L.add({'p': X + '/subx', 't': 'd'})
+        L.add({'p': P, 't': 'd'})
+        L.add({'p': P + '/lk', 't': 'l', 'to': '@/' + X + '/subx'})
+        L.add(world.ensure_trash_dirs(P + '/' + bn))
+        for e in entries + extra:
+            if e['trash'] == t['rel'] and '/' not in e['name']:
+                L.add({'p': '%s/%s/info/%s.trashinfo' % (P, bn, e['name']), 't': 'f',
+                       'c': world.trashinfo_text('bystander/x', '2001-01-01T00:00:00')})
+                L.add({'p': '%s/%s/files/%s' % (P, bn, e['name']), 't': 'f',
+                       'c': 'bystander payload'})
+        opts = ['--trash-dir', '@/' + P + '/lk/../' + bn]
+        via_link = t['rel']
+        odd.append('trash-dir-via-link-dotdot')
     case = L.desc()
     case['env'] = dict(case['env'], TRASH_DATE='2020-01-01T00:00:00')
     case['cmd'] = cmd
